@@ -165,6 +165,9 @@ def extent_equivariance(chk, repo, clause):
                     inline=extent_inline(repo))
     # propagate._mask_shape / _mask_shift use lentil.boundary(x, threshold)
     for fn in ('_mask_shape', '_mask_shift'):
+        if not repo.has_func(f'propagate.{fn}'):
+            chk.undecided(clause, 'N-equivariance', f'propagate.{fn}', 'axis swap', 'helper no longer exists under this name', '')
+            continue
         f, paths, _ = analyse(repo, f'propagate.{fn}')
         calls = [c for p in paths for c in p.calls('util.boundary')]
         if not calls:
